@@ -662,8 +662,18 @@ var fixedLayoutPrims = []string{"uint8", "int8", "bool", "float32", "float64", "
 // fixedLayoutType: a type whose C++ representation has a fixed size and no indirection.
 func (g *gen) fixedLayoutType() *Type {
 	base := Prim(fixedLayoutPrims[g.intn("flPrim", len(fixedLayoutPrims))])
-	if len(g.fixedRecs) > 0 && g.chance("flNested", 15) {
-		sd := g.fixedRecs[g.intn("flNestedIdx", len(g.fixedRecs))]
+	// only records that are visible from the package being generated
+	var vis []scopeDef
+	for _, fr := range g.fixedRecs {
+		for _, a := range g.avail {
+			if a.def == fr.def {
+				vis = append(vis, fr)
+				break
+			}
+		}
+	}
+	if len(vis) > 0 && g.chance("flNested", 15) {
+		sd := vis[g.intn("flNestedIdx", len(vis))]
 		base = Ref(sd.ns, sd.def.Name)
 	}
 	switch k := g.intn("flShape", 10); {
